@@ -9,3 +9,9 @@ TRUSTED = ['A1', 'A2', 'A5', 'A6', 'UF']
 
 def jobs(tier):
     return jobs_for('C01', MODULES, tier)
+
+
+def extra(tier, seed):
+    from fvverif.lean import lemma_status
+    ok, detail = lemma_status(['flux_form_sum', 'telescope'], rebuild=(tier == 'thorough'))
+    return [('lean lemmas flux_form_sum/telescope (per-cell flux form => domain sum changes only through boundary faces)', ok, 'lean:' + detail)]
